@@ -220,6 +220,7 @@ def main():
     seed = int(os.environ.get('VERIF_SEED', '1'))
     t0 = time.time()
     if a.replay:
+        a.replay = os.path.abspath(a.replay)
         env = dict(os.environ, PYTHONHASHSEED=str(json.load(open(a.replay)).get('hashseed') or 0),
                    PYTHONPATH=os.environ.get('VERIF_REPO', '/repo'), PYTHONDONTWRITEBYTECODE='1')
         rc, out = sh([PY, os.path.join(HERE, 'replay.py'), 'file', prop, a.replay], env=env, cwd=HERE)
